@@ -64,6 +64,7 @@ var phases = []phaseDef{
 	{"callbacks", func(env *vh.Env, rep *vh.Report, c *phaseCtx) { callbackReentrancy(env, rep) }},
 	{"result-aliasing", func(env *vh.Env, rep *vh.Report, c *phaseCtx) { resultAliasing(env, rep) }},
 	{"traversal-hooks", func(env *vh.Env, rep *vh.Report, c *phaseCtx) { traversalHooks(env, rep, c.facts) }},
+	{"whole-mutators", func(env *vh.Env, rep *vh.Report, c *phaseCtx) { wholeMutators(env, rep, c.facts) }},
 	{"sequential", func(env *vh.Env, rep *vh.Report, c *phaseCtx) { sequential(env, rep, c.rng.Fork(), c.fams()) }},
 	{"lock-step", func(env *vh.Env, rep *vh.Report, c *phaseCtx) { lockstep(env, rep, c.fams()) }},
 	{"oracle-lock-step", func(env *vh.Env, rep *vh.Report, c *phaseCtx) { oracleLockstep(env, rep, c.facts) }},
@@ -96,7 +97,7 @@ func runPhaseWorker(name string, env *vh.Env, rep *vh.Report) {
 		return fams
 	}
 	switch name {
-	case "sweep", "queues", "oracle-lock-step", "traversal-hooks", "reentry-samekey":
+	case "sweep", "queues", "oracle-lock-step", "traversal-hooks", "reentry-samekey", "whole-mutators":
 		ctx.facts = loadFacts(env, rep)
 	}
 	// a worker that stalls is ended by its own deadline, with what it has
